@@ -27,7 +27,7 @@ ABORTABLE = {29: "TopicAuthorizationFailedError", 30: "GroupAuthorizationFailedE
 FATAL = {47: "ProducerFenced", 45: "OutOfOrderSequenceNumber", 53: "TransactionalIdAuthorizationFailed"}
 
 
-def to_steps(seq, waits=None):
+def to_steps(seq, waits=None, par_delay=0.0):
     steps = []
     for i, s in enumerate(seq):
         w = bool(waits[i % len(waits)]) if waits else False
@@ -41,6 +41,9 @@ def to_steps(seq, waits=None):
             steps.append(["par", [[["send", 0, 0, False]], [["send", 1, 0, False]], [["send", 100, 0, False]]]])
         elif s == "offsets":
             steps.append(["offsets", {"0": 5 + i, "1": 50 + i}, "g"])      # offsets of two source partitions
+        elif s in ("po0", "po1"):                            # one task sends offsets while another sends to a partition
+            steps.append(["par", [[["offsets", {"0": 5 + i}, "g"]],
+                                  [["sleep", par_delay], ["send", int(s[-1]), 0, False]]]])
         elif s in ("commit", "abort"):
             steps.append([s])
         elif s in ("ctx_ok", "ctx_exc"):
@@ -50,12 +53,12 @@ def to_steps(seq, waits=None):
     return steps
 
 
-def make_case(seq, fault=None, waits=None, rng_seed=1, lat=None, same_leader=False):
+def make_case(seq, fault=None, waits=None, rng_seed=1, lat=None, same_leader=False, par_delay=0.0):
     return {"cfg": {"request_timeout_ms": 400, "retry_backoff_ms": 10, "max_batch_size": 400, "linger_ms": 0},
             "cluster": dict({"nodes": 2, "partitions": 2, "txn_coord": 0, "group_coord": 1},
                             **({"leaders": [1, 1]} if same_leader else {}),
                             **({"second_topic": True} if ("sendx" in seq or "par01x" in seq) else {})),
-            "procs": [{"steps": to_steps(seq, waits)}], "kills": [], "faults": [fault] if fault else [],
+            "procs": [{"steps": to_steps(seq, waits, par_delay)}], "kills": [], "faults": [fault] if fault else [],
             "env": [], "marker_delays": [0.0], "lat": lat or [0.001], "chunks": [0], "rng_seed": rng_seed,
             "seq": list(seq), "run_for": 30.0}
 
@@ -99,7 +102,7 @@ def evaluate(case, obs):
     err_applied = False
     # steps of concurrent tasks ("par") are recorded in start order: the model walks them in the order in which they
     # completed (for sequential programs this is the recorded order)
-    top = sorted(obs.steps, key=lambda x: (x.get("t_return", 1e18) if x["step"] == "send" else x["t_call"], x["t_call"]))
+    top = sorted(obs.steps, key=lambda x: (x.get("t_return", 1e18), x["t_call"]))
     # map nested ctx sends: steps inside a ctx body are recorded after the ctx record itself; we only walk
     # top-level records (ctx records carry their own verdict) - nested sends have t_call inside the ctx span
     spans = [(s["t_call"], s.get("t_return", 1e18)) for s in top if s["step"] in ("ctx_ok", "ctx_exc")]
@@ -325,6 +328,29 @@ def mixed_authorization_cases(shard, nshards):
                                         waits=waits, rng_seed=7, lat=[0.001], same_leader=same)
 
 
+CONCURRENT_SEQS = [["begin", "po1", "abort", "begin", "send1", "commit"],
+                   ["begin", "send0", "po1", "abort", "begin", "send1", "commit"],
+                   ["begin", "send0", "po1", "commit", "abort", "begin", "send0", "send1", "commit"],
+                   ["begin", "po0", "send1", "abort", "begin", "po1", "commit"]]
+
+
+def concurrent_abortable_cases(shard, nshards):
+    """send_offsets_to_transaction fails with GROUP_AUTHORIZATION_FAILED (at AddOffsetsToTxn, at the group
+    coordinator lookup or at TxnOffsetCommit) while another task has just sent to a partition that is still
+    waiting for its AddPartitionsToTxn: that record must not reach the leader outside the transaction, the abort
+    undoes everything and the next transaction stands on its own."""
+    i = 0
+    for seq in CONCURRENT_SEQS:
+        for sel, k in (("add_offsets", 0), ("txn_offset_commit", 0), ("find_coordinator", 1), ("add_offsets", 1),
+                       ("txn_offset_commit", 1)):
+            for d in (0.0, 0.001, 0.002, 0.003, 0.004, 0.006, 0.008):
+                for same in (False, True):
+                    i += 1
+                    if i % nshards == shard:
+                        yield make_case(seq, {"sel": sel, "k": k, "act": "error", "code": 30}, waits=[1], rng_seed=9,
+                                        lat=[0.001], same_leader=same, par_delay=d)
+
+
 def strategy():
     from hypothesis import strategies as st
 
@@ -340,7 +366,7 @@ def strategy():
             elif state == "R":
                 s = draw(st.sampled_from(["begin", "begin", "ctx_ok", "ctx_exc"]))
             else:
-                s = draw(st.sampled_from(["send0", "send1", "send0", "offsets", "commit", "abort", "pause"]))
+                s = draw(st.sampled_from(["send0", "send1", "send0", "offsets", "commit", "abort", "pause", "po1"]))
             if s == "begin":
                 state = "T"
             elif s in ("commit", "abort"):
@@ -364,7 +390,8 @@ def strategy():
         return make_case(seq, fault, waits=draw(st.lists(st.integers(0, 1), min_size=1, max_size=4)),
                          rng_seed=draw(st.integers(0, 2 ** 31)),
                          lat=draw(st.lists(st.sampled_from([0.0005, 0.001, 0.005]), min_size=1, max_size=3)),
-                         same_leader=draw(st.booleans()))
+                         same_leader=draw(st.booleans()),
+                         par_delay=draw(st.sampled_from([0.0, 0.001, 0.002, 0.004])))
     return cases()
 
 
@@ -376,6 +403,8 @@ def campaigns(tier):
             Campaign("abortable_fault", "enum", execute=execute, cases=abortable_fault_cases, exhaustive=True,
                      setup=TS.setup),
             Campaign("mixed_authorization", "enum", execute=execute, cases=mixed_authorization_cases, exhaustive=True,
+                     setup=TS.setup),
+            Campaign("concurrent_abortable", "enum", execute=execute, cases=concurrent_abortable_cases, exhaustive=True,
                      setup=TS.setup),
             Campaign("partial_produce_fault", "enum", execute=execute, cases=partial_fault_cases, exhaustive=True,
                      setup=TS.setup),
